@@ -22,11 +22,21 @@ pub struct Case {
     pub stride: usize,
 }
 
+/// a case whose indicator is built with Default::default(); its cfg holds the documented default parameters
+#[derive(Clone, Debug, Serialize, Deserialize)]
+pub struct DCase {
+    pub case: Case,
+}
+
 pub fn check(c: &Case, ctx: &mut Ctx) -> Result<(), Failure> {
+    check_with(c, ctx, false)
+}
+
+pub fn check_with(c: &Case, ctx: &mut Ctx, via_default: bool) -> Result<(), Failure> {
     let k = c.cfg.kind;
     let n = c.cfg.n();
     let m = c.cfg.m.0;
-    let mut ind = Ind::build(k, &c.cfg.params()).map_err(|_| Failure { signature: "C01:harness:build".into(), detail: "HARNESS build failed".into() })?;
+    let mut ind = if via_default { Ind::default_of(k) } else { Ind::build(k, &c.cfg.params()).map_err(|_| Failure { signature: "C01:harness:build".into(), detail: "HARNESS build failed".into() })? };
     let mut hist: Vec<f64> = Vec::with_capacity(c.xs.len());
     let mut big = 0.0f64;
     let mut fp = Fp::new("C01");
@@ -201,6 +211,22 @@ pub fn run(g: &mut Global) {
         "tolerance tau(t)*M as stated by the property; SD and Bollinger half-widths on the variance scale (+4 ulp of the band level for the subtraction)".into(),
         "streams are finite with |x| <= 1e12".into(),
     ];
+    // instances obtained from Default::default() are the same statistics with the documented default period
+    // (a Default assembled from component defaults can report one period and compute with another)
+    let seedd = g.seed;
+    g.exhaustive(
+        "defaults",
+        7 * 24,
+        &move |i| {
+            let kind = KINDS[(i % 7) as usize];
+            let r = i / 7;
+            let mut gen = crate::props::c13::Gen::new(seedd ^ (i + 1).wrapping_mul(0x9E3779B97F4A7C15), [0usize, 3, 1, 4][(r % 4) as usize], 3.7, 5);
+            let sign = if (r / 4) % 2 == 0 { 1.0 } else { -1.0 };
+            let resets = if (r / 8) % 3 == 1 { vec![57] } else { vec![] };
+            DCase { case: Case { cfg: crate::hist::cfg_default(kind), xs: (0..160).map(|_| X(sign * gen.next())).collect(), resets, stride: 0 } }
+        },
+        &|d: &DCase, ctx: &mut Ctx| check_with(&d.case, ctx, true),
+    );
     let depth = g.tier.pick(7usize, 9usize);
     let per_cfg = ipow(6, depth);
     let count = per_cfg * 5 * ECFG.len() as u64;
